@@ -1,6 +1,7 @@
 \* C04/C05 quick: grammar check of every field map, single-site + structured + length-compensating
-\* mutations, one-at-a-time header bytes.
+\* mutations, header bytes one at a time; header byte pairs on the first instance.
 SPECIFICATION Spec
 CONSTANTS Thorough = FALSE  Pairs = FALSE
+  HeaderPairsFor <- HPFirst
 INVARIANT GrammarOk CasesBind Emit
 CHECK_DEADLOCK FALSE
